@@ -1,12 +1,30 @@
 module elaverif/extract
 
-go 1.20
+go 1.22.0
+
+toolchain go1.23.5
 
 require github.com/elastos/Elastos.ELA v0.0.0
 
 require (
+	github.com/btcsuite/btcd v0.23.2 // indirect
+	github.com/btcsuite/btcd/chaincfg/chainhash v1.0.1 // indirect
+	github.com/go-echarts/go-echarts/v2 v2.2.3 // indirect
+	github.com/go-echarts/statsview v0.3.4 // indirect
+	github.com/golang/snappy v0.0.4 // indirect
+	github.com/howeyc/gopass v0.0.0-20190910152052-7cb4b85ec19c // indirect
+	github.com/rs/cors v1.8.0 // indirect
+	github.com/syndtr/goleveldb v1.0.1-0.20210819022825-2ae1ddf74ef7 // indirect
+	golang.org/x/mod v0.22.0 // indirect
+	golang.org/x/sync v0.10.0 // indirect
+	golang.org/x/sys v0.29.0 // indirect
+	golang.org/x/term v0.15.0 // indirect
+)
+
+require (
 	github.com/itchyny/base58-go v0.1.0 // indirect
 	golang.org/x/crypto v0.17.0 // indirect
+	golang.org/x/tools v0.29.0
 )
 
 replace github.com/elastos/Elastos.ELA => /repo
